@@ -626,7 +626,11 @@ def gen_c12(rng: random.Random, cfgs: list[str]) -> dict:
                        "victim": rng.randrange(len(actors))})  # fmt: skip
 
     return {"cfg": rng.choice(cfgs), "cap": rng.choice([0, 0, 1, 2, "inf"]), "actors": actors,
-            "agents": agents, "spare_r": True}  # fmt: skip
+            "agents": agents + [
+                {"at": rng.randint(0, 12), "place": rng.choice(["before", "after"]),
+                 "close_actor": rng.randrange(len(actors))}
+                for _ in range(rng.choice([0, 0, 0, 1, 2]))
+            ], "spare_r": True}  # fmt: skip
 
 
 def sweep_c12(cfgs: list[str]):  # noqa: ANN201
@@ -671,6 +675,46 @@ def sweep_c12(cfgs: list[str]):  # noqa: ANN201
                                            "agents": [{"at": at, "place": place,
                                                        "victim": victim}],
                                            "spare_r": True}  # fmt: skip
+
+
+def sweep_c12_third_party_close(cfgs: list[str]):  # noqa: ANN201
+    """the handle a receiver is blocked on is closed by somebody else (a spare clone keeps
+    the receive side open) around the instant an item is handed to it: the item must reach
+    a receive call or stay in the stream - and mirror image for a blocked sender"""
+    for cfg in cfgs:
+        for cap in (0, 1, "inf"):
+            for k in (1, 2):
+                for at in range(1, 7):
+                    for d in range(max(1, at - 2), at + 3):
+                        for place in ("before", "after"):
+                            for nowait in (False, True):
+                                actors = [
+                                    {"role": "R", "mode": "scope", "ops": [["recv", i, False]]}
+                                    for i in range(k)
+                                ] + [
+                                    {"role": "S", "mode": "scope",
+                                     "ops": [["send", d, nowait], ["send", 1, nowait]]},
+                                ]  # fmt: skip
+                                yield {"cfg": cfg, "cap": cap, "actors": actors,
+                                       "agents": [{"at": at, "place": place, "close_actor": 0}],
+                                       "spare_r": True, "spare_s": False}  # fmt: skip
+
+            if cap == "inf":
+                continue
+
+            for at in range(1, 6):
+                for rd in range(max(1, at - 1), at + 3):
+                    for place in ("before", "after"):
+                        actors = [
+                            {"role": "S", "mode": "scope",
+                             "ops": [["send", 0, False], ["send", 0, False]]},
+                            {"role": "S", "mode": "scope", "ops": [["send", 1, False]]},
+                            {"role": "R", "mode": "scope",
+                             "ops": [["recv", rd, False], ["recv", 1, False], ["recv", 0, True]]},
+                        ]  # fmt: skip
+                        yield {"cfg": cfg, "cap": cap, "actors": actors,
+                               "agents": [{"at": at, "place": place, "close_actor": 0}],
+                               "spare_r": True, "spare_s": True}  # fmt: skip
 
 
 def gen_c13(rng: random.Random, cfgs: list[str]) -> dict:
